@@ -274,6 +274,7 @@ def r6_trim_start_impl(ctx):
     import consume
     for cfg, F in ctx.facts.items():
         consume.refill_completeness(ctx, "R6", F, cfg)
+        one_whitespace_notion(ctx, "R6", F, cfg)
         consume.slice_impl(ctx, "R6", F, cfg)
         for b in F.bodies_with("slice_reader", "XmlSource", end="skip_whitespace"):
             ok = False
@@ -284,7 +285,7 @@ def r6_trim_start_impl(ctx):
                     if name_is(c[2], "count") and call_is(c[3][0], "take_while"):
                         ok = True  # equivalent spelling: number of leading bytes satisfying the predicate
             ctx.ob("R6", "slice:skip_whitespace:all", ok, "the slice source skips up to the first non-whitespace byte, or everything if there is none", config=cfg)
-    ctx.obs[:] = [o for o in ctx.obs if not (o["rule"] == "R6" and "skip_whitespace" not in o["site"] and not o["site"].startswith("floor:"))]
+    ctx.obs[:] = [o for o in ctx.obs if not (o["rule"] == "R6" and "skip_whitespace" not in o["site"] and "whitespace" not in o["site"] and not o["site"].startswith("floor:"))]
 
 
 def r7_options_stay(ctx):
